@@ -178,8 +178,21 @@ func (fr *Frame) staticCall(callee *ssa.Function, binds []*Val, args []*Val, st 
 	if ct := eng.contractFor(callee); ct != nil && !eng.forceInline[key] && !ct.onlyLoopInvs() {
 		return fr.applyContract(ct, callee, nil, args, st, pos, resTy, key)
 	}
-	// 3. inline
-	if len(callee.Blocks) > 0 && eng.isOwnFunc(callee) && fr.depth < maxInlineDepth && !fr.onStack(callee) && instrCount(callee) <= maxInlineInstrs && !eng.noInline[key] {
+	// 3. inline. Whether a callee without a contract is small enough is decided by its size; the decision taken when
+	// the claims were recorded is kept afterwards (claims/inline.json), so that a function which shrinks or grows a
+	// little is not suddenly treated differently in all its callers.
+	small := instrCount(callee) <= maxInlineInstrs
+	if eng.sizeDecisions != nil {
+		eng.sizeMu.Lock()
+		if _, seen := eng.sizeDecisions[key]; !seen {
+			eng.sizeDecisions[key] = small
+		}
+		eng.sizeMu.Unlock()
+	}
+	if was, ok := eng.baseInline[key]; ok {
+		small = was && instrCount(callee) <= 5*maxInlineInstrs
+	}
+	if len(callee.Blocks) > 0 && eng.isOwnFunc(callee) && fr.depth < maxInlineDepth && !fr.onStack(callee) && small && !eng.noInline[key] {
 		return fr.inline(callee, binds, args, st, pos)
 	}
 	// 4. havoc
